@@ -58,8 +58,16 @@ func TestC14(t *testing.T) {
 		cases = append(cases, mon.CaseSpec{Name: "pairbusy", Spec: spec{Kind: "pairbusy", Proto: []string{"pair", "pair1"}[i%2], RMs: []int{5, 20}[i%2], MaxMs: []int{0, 40}[(i/2)%2], Async: true}})
 		cases = append(cases, mon.CaseSpec{Name: "capfine", Spec: spec{Kind: "capfine", Proto: "pair", RMs: 300, MaxMs: 1200, Async: true}})
 	}
+	for i := 0; i < r.Pick(6, 120); i++ {
+		cases = append(cases, mon.CaseSpec{Name: "realrestart", Spec: spec{Kind: "realrestart", Proto: "push", RMs: []int{3, 10}[(i/3)%2], Async: true, Script: []string{"inproc", "ipc", "tcp"}[i%3]}})
+	}
 	r.Run(cases, func(c *mon.Case) {
 		sp := c.Spec.(spec)
+		if sp.Kind == "realrestart" {
+			runRealRestart(c, sp)
+			c.Sig("realrestart|%s|%d", sp.Script, sp.RMs)
+			return
+		}
 		if sp.Yield {
 			hx.SetYields(c.Rand.Int63(), &hx.YieldCfg{ProbGosched: 0.25, ProbSleep: 0.15, MaxSleep: 300 * time.Microsecond})
 			defer hx.SetYields(0, nil)
